@@ -20,6 +20,7 @@ import (
 	batchv1 "k8s.io/api/batch/v1"
 	corev1 "k8s.io/api/core/v1"
 	netv1beta1 "k8s.io/api/networking/v1beta1"
+	apierrors "k8s.io/apimachinery/pkg/api/errors"
 	metav1 "k8s.io/apimachinery/pkg/apis/meta/v1"
 	"k8s.io/apimachinery/pkg/runtime"
 	"k8s.io/apimachinery/pkg/runtime/schema"
@@ -44,6 +45,9 @@ const (
 	ListNonObjects   // a list whose items are not API objects
 	ListHang         // blocks until the context is cancelled
 	ListErrCanceled  // returns context.Canceled although nobody cancelled
+	ListErrTooMany   // a Kubernetes Status error: 429 TooManyRequests
+	ListErrSrvTimeout // 500 ServerTimeout
+	ListErrTimeout   // 504 Timeout
 )
 
 var ErrList = errors.New("fakeapi: injected list error")
@@ -84,6 +88,9 @@ type Server struct {
 	ListBehave   func(n int) ListKind
 	WatchBehave  func(n int, rv string) string // "ok" | "error" | "hang"
 	WatchLatency func(n int) time.Duration
+	// Unversioned: lists carry no collection resourceVersion (legal; client-go's
+	// fake clientsets do this), and a watch from "" starts at the present
+	Unversioned bool
 	// AfterSnapshot runs inside the n-th List call right after its snapshot was
 	// taken (no lock held): changes it makes are newer than the list and
 	// reach the client through the watch at the moment the list returns
@@ -273,6 +280,12 @@ func (s *Server) List(ctx context.Context, _ metav1.ListOptions) (runtime.Object
 		return nil, ErrList
 	case ListErrCanceled:
 		return nil, context.Canceled
+	case ListErrTooMany:
+		return nil, apierrors.NewTooManyRequests("fakeapi: overloaded", 1)
+	case ListErrSrvTimeout:
+		return nil, apierrors.NewServerTimeout(schema.GroupResource{Resource: "pods"}, "list", 1)
+	case ListErrTimeout:
+		return nil, apierrors.NewTimeoutError("fakeapi: timeout", 1)
 	case ListNonList:
 		return &corev1.Pod{}, nil
 	case ListNoItems:
@@ -281,6 +294,9 @@ func (s *Server) List(ctx context.Context, _ metav1.ListOptions) (runtime.Object
 		l := &metav1.List{ListMeta: metav1.ListMeta{ResourceVersion: strconv.Itoa(v)}}
 		l.Items = append(l.Items, runtime.RawExtension{Object: &notAnObject{}})
 		return l, nil
+	}
+	if s.Unversioned {
+		return TypedList(s.Kind, "", objs), nil
 	}
 	return TypedList(s.Kind, strconv.Itoa(v), objs), nil
 }
@@ -491,11 +507,22 @@ func (s *Server) Watch(ctx context.Context, opts metav1.ListOptions) (watch.Inte
 		return nil, context.DeadlineExceeded
 	case "error-canceled":
 		return nil, context.Canceled
+	case "error-forbidden":
+		// RBAC grants list but not watch
+		return nil, apierrors.NewForbidden(schema.GroupResource{Resource: "pods"}, "", errors.New("fakeapi: watch not allowed"))
+	case "error-unauthorized":
+		return nil, apierrors.NewUnauthorized("fakeapi: token expired")
 	case "hang":
 		<-ctx.Done()
 		return nil, ctx.Err()
 	}
 	rv, err := strconv.Atoi(opts.ResourceVersion)
+	if opts.ResourceVersion == "" {
+		// "start at most recent"
+		s.mu.Lock()
+		rv, err = s.version, nil
+		s.mu.Unlock()
+	}
 	if err != nil {
 		return nil, fmt.Errorf("fakeapi: bad resource version %q", opts.ResourceVersion)
 	}
@@ -611,10 +638,11 @@ func (s *Server) ReplayStale(k int) int {
 }
 
 // ConnectError rotates through the kinds of connect error a Watch call can
-// return: an ordinary error, and the two context errors (as from a
-// client-side timeout) with the caller's context still live.
+// return: an ordinary error, the two context errors (as from a
+// client-side timeout) with the caller's context still live, and the API
+// Status errors Forbidden and Unauthorized.
 func ConnectError(n int) string {
-	return []string{"error", "error-deadline", "error-canceled"}[n%3]
+	return []string{"error", "error-deadline", "error-canceled", "error-forbidden", "error-unauthorized"}[n%5]
 }
 
 // DropNext makes every open stream silently skip its next k log entries.
